@@ -194,6 +194,7 @@ func Keys(r *ev.Run, tier string) (evals, nontrivial int64) {
 
 	evals += PointLookups(r, h, "C19")
 	evals += ListQueries(r)
+	evals += ManyRecords(r, "C19")
 
 	// heights: per-byte exhaustive; key injectivity and read-back through every client's iterators
 	var heights []clienttypes.Height
